@@ -605,6 +605,73 @@ func refPoolPut(r *engine.Run, rule string) {
 				"an object is used ("+bad+") after it was handed back to its sync.Pool: the next Get may already have given it to another goroutine, whose hash or buffer is then computed from mixed state")
 		})
 	}
+	// a deferred Put runs before every defer registered EARLIER in the function
+	// (last in, first out): an earlier `defer h.Reset()` touches the object after
+	// it went back to the pool
+	for _, f := range r.P.RepoCG().Funcs {
+		if len(f.Blocks) == 0 {
+			continue
+		}
+		o := ord{}
+		engine.Instrs(f, func(in ssa.Instruction) {
+			d, ok := in.(*ssa.Defer)
+			if !ok || len(d.Call.Args) != 2 {
+				return
+			}
+			sc := d.Call.StaticCallee()
+			if sc == nil || sc.Name() != "Put" || sc.Signature.Recv() == nil || !strings.HasSuffix(sc.Signature.Recv().Type().String(), "sync.Pool") {
+				return
+			}
+			puts++
+			root := through(d.Call.Args[1])
+			alias := map[ssa.Value]bool{root: true}
+			for changed := true; changed; {
+				changed = false
+				engine.Instrs(f, func(in2 ssa.Instruction) {
+					v, ok := in2.(ssa.Value)
+					if !ok || alias[v] {
+						return
+					}
+					switch x := v.(type) {
+					case *ssa.MakeInterface:
+						if alias[x.X] {
+							alias[v], changed = true, true
+						}
+					case *ssa.TypeAssert:
+						if alias[x.X] {
+							alias[v], changed = true, true
+						}
+					case *ssa.ChangeInterface:
+						if alias[x.X] {
+							alias[v], changed = true, true
+						}
+					case *ssa.Extract:
+						if ta, ok := x.Tuple.(*ssa.TypeAssert); ok && x.Index == 0 && alias[ta.X] {
+							alias[v], changed = true, true
+						}
+					}
+				})
+			}
+			bad := ""
+			engine.Instrs(f, func(in2 ssa.Instruction) {
+				d2, ok := in2.(*ssa.Defer)
+				if !ok || d2 == d || !engine.ReachableAfter(d2, d) {
+					return
+				}
+				uses := alias[d2.Call.Value]
+				for _, a := range d2.Call.Args {
+					if alias[a] {
+						uses = true
+					}
+				}
+				if uses {
+					bad = r.P.Pos(d2.Pos())
+				}
+			})
+			r.Check(bad == "", rule, o.next(fn(f)+"|deferred Put"), r.P.Pos(d.Pos()), "no defer registered before the deferred Put touches the pooled object",
+				"a deferred call registered earlier ("+bad+") runs AFTER the deferred Put (defers run last in, first out) and touches the object that is already back in its sync.Pool: another goroutine may have taken it in between, and its written input is wiped - concurrent hashing returns wrong digests")
+		})
+	}
 	r.OK(rule, "sync.Pool.Put calls", "-", fmt.Sprintf("%d Put calls in the repository's functions; none is followed by a use of the object", puts))
 }
 
